@@ -75,7 +75,7 @@ pub fn atom_leaves(full: bool) -> Vec<OwnedTerm> {
 pub fn atom_names(full: bool) -> Vec<String> {
     let mut v: Vec<String> = vec![
         "".into(), "a".into(), "ab".into(), "Elixir.Foo".into(), "é".into(), "€".into(), "😀".into(), "a".repeat(255), "a".repeat(256),
-        "é".repeat(127), "é".repeat(128), "é".repeat(255), "b".repeat(65535), "ok".into(), "nil".into(), "undefined".into(), "true".into(),
+        "é".repeat(127), "é".repeat(128), "é".repeat(255), "€".repeat(85), "€".repeat(86), "😀".repeat(63), "😀".repeat(64), "😀".repeat(255), format!("a{}", "é".repeat(127)), "b".repeat(65535), "ok".into(), "nil".into(), "undefined".into(), "true".into(),
     ];
     // every name the library interns specially
     for s in ["error", "false", "normal", "shutdown", "infinity", "badarg", "badarith", "badmatch", "noproc", "timeout"] {
